@@ -98,7 +98,7 @@ def modfile_args():
     return ["-modfile=" + alt]
 
 
-def build(pid, cfg):
+def build(pid, cfg, tier="quick"):
     os.makedirs(BUILD, exist_ok=True)
     env = goenv()
     outs = {}
@@ -115,6 +115,16 @@ def build(pid, cfg):
             log("BUILD-FAILED property=%s pkg=%s (infrastructure, not a verdict)" % (pid, pkg))
             return None
         outs[pkg] = out
+        # native fuzzing needs coverage instrumentation, which "go test -c" only adds when -fuzz is given
+        if tier == "thorough" and any(j.get("kind") == "fuzz" and j.get("pkg", cfg.get("pkg")) == pkg for j in cfg.get("jobs", [])):
+            fout = os.path.join(BUILD, "%s-%s.fuzz.test" % (name, tag))
+            fcmd = ["go", "test", "-c", "-tags", "verif", "-fuzz=Fuzz"] + modfile_args() + ["-o", fout, pkg]
+            r = subprocess.run(fcmd, cwd=HARNESS, env=env, stdout=subprocess.PIPE, stderr=subprocess.STDOUT)
+            if r.returncode == 0:
+                outs["fuzz:" + pkg] = fout
+            else:
+                sys.stdout.write(r.stdout.decode(errors="replace"))
+                log("note: instrumented fuzz build failed for %s, fuzzing without coverage guidance" % pkg)
     for extra in cfg.get("bins", []):
         out = os.path.join(BUILD, "%s-%s" % (extra["name"], tag))
         if extra.get("lang") == "c":
@@ -336,6 +346,8 @@ def plan(pid, cfg, tier, seed, bins, rundir, known, replay=None):
         if extra_env:
             env.update(extra_env)
         binp = bins[job.get("pkg", cfg["pkg"])]
+        if kind == "fuzz":
+            binp = bins.get("fuzz:" + job.get("pkg", cfg["pkg"]), binp)
         t = Task(pid, job, shard, [binp] + args, cwd, env, timeout, kind, test, requested)
         tasks.append(t)
         return t
@@ -483,7 +495,7 @@ def main(argv):
         seed = 1
     t0 = time.time()
     known = load_known()
-    bins = build(pid, cfg)
+    bins = build(pid, cfg, a.tier)
     if bins is None:
         return 2
     if a.replay:
